@@ -1288,8 +1288,11 @@ func (r *Raft) election() {
 // sendRequestVoteToPeers sends a RequestVoteRPC to all nodes in the cluster,
 // excluding those that are non-voters.
 func (r *Raft) sendRequestVoteToPeers() {
-	// Handle the single node cluster case.
+	// Handle the single node cluster case. No votes are needed, but leadership
+	// must still begin in a new term: entries and read-only operations rely on
+	// the term to tell what this leader has committed itself.
 	if r.isSingleServerCluster() {
+		r.becomeCandidate()
 		r.becomeLeader()
 		return
 	}
